@@ -37,7 +37,12 @@ impl Monitor for Mon {
         // new session => counters restart. A session is identified by its keys and address: a join
         // whose accept was processed establishes one even when the call then ends in a radio error.
         let keys = w.dut.session_keys();
-        if keys != self.cur_keys {
+        // ... and a join attempt in which the reference network saw an authentic JoinAccept delivered starts a new
+        // session even if its keys coincide with the old ones (two DevNonces drawn alike, same JoinNonce: one join
+        // in 65536)
+        let joined_anew = matches!(rec.op, Op::Join(_))
+            && w.env.borrow().delivered[rec.del_lo..rec.del_hi].iter().any(|d| matches!(d.verdict, crate::world::Verdict::JoinAccept(_)));
+        if keys != self.cur_keys || joined_anew {
             self.cur_keys = keys;
             self.last_n = None;
             self.expired = false;
